@@ -17,7 +17,10 @@ META = dict(
          "borrows, running/expired Dutch and English auctions, oracle down, inactive prices, auction types disabled, missing token-mint data, emptied collector, full "
          "utilisation, ESM executed, liquidity batches with expired orders, gauges due, V1 hooks) every unit of the real BeginBlocker/EndBlocker is enumerated: for sampled "
          "(quick) or all (thorough) k the k-th store access under the unit's context panics; TLC compares the store digest with the run in which the unit was skipped and "
-         "with the run in which it had no effect, requires the hook to return, and checks naturally failing units and per-item steps (masked-item reference) the same way.",
+         "with the run in which it had no effect, requires the hook to return, and checks naturally failing units and per-item steps (masked-item reference) the same way. Liquidation steps (one vault / one borrow, V1 and V2) "
+         "are additionally judged by facets around the module's begin blocker run alone: seized, locked-vault written, auction started must be all true or all false - also when an inner "
+         "step fails by itself (auction parameters missing, auction type off, price inactive at the auction start, collateral lent out). Hook loops are driven with real work in two CDP apps "
+         "(both white-listed for V1 and V2 liquidation, liquidity in two apps); hooks run while a state's history is produced are judged like plain blocks.",
     note="Trusted: TLC/Json module, sim.Digest over all DeFi stores + bank, the observation of unit failures through the wrapper's error log line, the item masks "
          "(borrow flagged liquidated / vault collateral inflated) used only for reference runs. Faults are injected at gas-metered store accesses only.",
     design_ref="4 C15",
@@ -74,13 +77,14 @@ def run(c):
     if c.violations:  # a violation found on real-code states stands whatever the vacuity counters say
         return c.finish("fault_enumeration", dict(evaluations=max(1, len(nodes)), distinct_nontrivial=max(2, len(c.violations)),
                                                   rule="run ended with violations; see replay files", antecedents=st))
-    need = ["states", "blocks", "units", "nestedUnits", "failedUnits", "effectiveUnits", "faultsFired", "faultsNested", "itemsFailed", "toys", "toysAborting"]
+    need = ["states", "blocks", "units", "nestedUnits", "failedUnits", "effectiveUnits", "faultsFired", "faultsNested", "itemsFailed", "toys", "toysAborting",
+            "facets", "facetsApplied", "facetsV1Applied", "facetsBorrowApplied", "facetsUntouched", "facetsEnvFault", "multiAppSweeps"]
     zero = [k for k in need if st.get(k, 0) == 0]
     if zero:
         raise vlib.NoVerdict("vacuous run, zero antecedent counters %s: %s" % (zero, st))
     if m1.get("transitions_dumped", 0) != st["toys"]:
         raise vlib.NoVerdict("model behaviours dumped (%s) != executed on the real wrapper (%s)" % (m1.get("transitions_dumped"), st["toys"]))
-    cases = st["toys"] + st["faults"] + st["units"] + st["items"] + st["blocks"] + st["dryRuns"]
+    cases = st["toys"] + st["faults"] + st["units"] + st["items"] + st["blocks"] + st["dryRuns"] + st["facets"]
     nontrivial = st["toysAborting"] + st["faultsFired"] + st["failedUnits"] + st["itemsFailed"]
     return c.finish("fault_enumeration", dict(
         evaluations=cases, distinct_nontrivial=nontrivial,
